@@ -36,11 +36,13 @@ def step (fields : List String) : String :=
     let libOK := parts.length ≥ 4 &&
       (let content := parts.getLastD ""
        let reps := ((parts.drop 1).take (parts.length - 3)).map repOf
+       let deleted := (parts.drop (parts.length - 2)).headD ""
        reps.all exact && !reps.isEmpty &&
-       (if target == "~" then content == "-" else content == target))
+       -- an absent file must be absent (not an empty file that exists), and the other way round
+       (if target == "~" then content == "-" && deleted == "1" else content == target && deleted == "0"))
     let cliOK := if cli == "-" then true else
       match cli.splitOn ";" with
-      | [e, content] => e == "exit=0" && (if target == "~" then content == "~" || content == "-" else content == target)
+      | [e, content] => e == "exit=0" && content == target
       | _ => false
     let nothingToDo := patch == "-"
     let verdict := if nothingToDo then "na" else if libOK && cliOK then "ok" else
